@@ -7,3 +7,10 @@ PROPS["C01"] = {
     "assumptions": [LIBC_ASSUME, NOFAIL],
 }
 
+
+# ---- fixed-size scratch arrays
+U("c01_table_alignments", ["C01"], "h_table_align", ["C01/table.c"], ["writer.c"], plain=True, lib=(), kind="bounded",
+  bounds={"separator cells<=": 52, "unwind": 110}, cbmc_flags=["--unwind", "110", "--unwinding-assertions"],
+  functions=["read_table_column_alignments"], callees={"scan_alignment_string": "assumed contract (re2c scanner): returns any value"},
+  native={"repo": "ALL", "ldflags": ["-lm"]},
+  timeout=600, cost=40, assumptions=["scan_alignment_string (re2c generated) reads only its NUL-terminated argument and returns any value"])
